@@ -294,7 +294,9 @@ def const_cases(draw, tier):
         order.insert(draw(st.integers(0, len(order))), "CN0")
     spaces = draw(st.booleans())
     return {"order": order, "vals": vals, "sym": sym, "spaces": spaces, "perm2": list(draw(st.permutations(list(range(40))))),
-            "P": draw(st.sampled_from([1, 2, 3])), "root": draw(st.integers(0, 2)), "schedule": draw(gen.schedules(6))}
+            "P": draw(st.sampled_from([1, 2, 3])), "root": draw(st.integers(0, 2)), "schedule": draw(gen.schedules(6)),
+            # the output folder is new, exists empty, or already holds the parameter file of another run
+            "folder": draw(st.sampled_from(["new", "empty", "used"]))}
 
 
 def expected_constants(c):
@@ -350,6 +352,11 @@ def const_pred(c):
         with open(path, "w") as fh:
             fh.write(file_text(c))
         folder = os.path.join(d, "out")
+        if c.get("folder", "new") != "new":
+            os.mkdir(folder)
+            if c["folder"] == "used":
+                with open(os.path.join(folder, "initParams.json"), "w") as fh:
+                    json.dump(BASE, fh)
         with crash_is_violation("C18:constants:parse", "get_constants on the generated file"):
             res, w = run_world(c["P"], _const_rank, (c, path, folder), schedule=c["schedule"], key="C18:constants")
         first = res[0][0]
@@ -381,7 +388,8 @@ def const_pred(c):
             for name, cc in (("saved parameter file", c2), ("saved parameter file with permuted keys", c3)):
                 if getattr(cc, k) != v:
                     raise Violation("C18:constants:roundtrip", "%s: constant %s = %r, original %r" % (name, k, getattr(cc, k), v))
-    return {"nontrivial": len(c["sym"]) >= 2, "labels": ["sym=%d" % min(len(c["sym"]), 4), "P=%d" % c["P"]], "evals": 3}
+    return {"nontrivial": len(c["sym"]) >= 2, "labels": ["sym=%d" % min(len(c["sym"]), 4), "P=%d" % c["P"],
+                                                       "folder-" + c.get("folder", "new")], "evals": 3}
 
 
 # ----------------------------------------------------------------------------------------------
